@@ -1304,3 +1304,84 @@ func c06Alloc(r *fw.Run, p *fw.Program) {
 		})
 	}
 }
+
+// ---------------------------------------------------------------------------
+// C06.bounds: where a bounds test against len(x) guards an index into x, it must be the right one
+
+var boundsExceptions = map[string]string{}
+
+func c06Bounds(r *fw.Run, p *fw.Program, reach map[*ssa.Function]bool) {
+	ru := r.Rule("C06.bounds", "where an index x[i] in decoder code is dominated by a test relating i and len(x) whose failing arm does not continue, that test proves i < len(x) (an off-by-one bounds test is an index-out-of-range fault on crafted input)", 20)
+	for _, fn := range p.FqFunctions() {
+		if !strings.HasPrefix(pkgRel(fn), "format") && pkgRel(fn) != "pkg/decode" {
+			continue
+		}
+		var env *fw.PolyEnv
+		ord := 0
+		fw.EachInstr(fn, func(ins ssa.Instruction) {
+			var xs, idx ssa.Value
+			switch y := ins.(type) {
+			case *ssa.IndexAddr:
+				xs, idx = y.X, y.Index
+			case *ssa.Index:
+				xs, idx = y.X, y.Index
+			default:
+				return
+			}
+			if _, isC := idx.(*ssa.Const); isC {
+				return
+			}
+			switch xs.Type().Underlying().(type) {
+			case *types.Slice, *types.Basic:
+			default:
+				return
+			}
+			path, ok := fw.AccessPath(xs)
+			if !ok {
+				return
+			}
+			if env == nil {
+				env = fw.NewPolyEnv(fn)
+			}
+			lenAtom := "len(" + path + ")"
+			ip := env.Of(idx)
+			// a bounds test for THIS index: a fact whose polynomial is +-(index - len(x)) up to a constant
+			target := fw.StripVersions(ip.Sub(fw.PAtom(lenAtom)))
+			related := false
+			for _, f := range env.Facts(ins.Block()) {
+				fp := fw.StripVersions(f.P)
+				for _, sgn := range []int64{1, -1} {
+					if _, isConst := fp.Sub(target.MulC(sgn)).IsConst(); isConst {
+						related = true
+					}
+				}
+			}
+			if c, isConst := target.IsConst(); isConst && c < 0 {
+				return // x[len(x)-k]: relation to the length is syntactic
+			}
+			if !related {
+				return
+			}
+			ord++
+			key := fmt.Sprintf("%s|%s|%d", fw.ShortFn(fn), path, ord)
+			// strip store versions: the test and the use read the same slice header in practice
+			want := fw.Cmp{P: fw.StripVersions(ip.Sub(fw.PAtom(lenAtom))), Rel: fw.LT}
+			proved := false
+			for _, f := range env.Facts(ins.Block()) {
+				f.P = fw.StripVersions(f.P)
+				if f.Implies(want) {
+					proved = true
+				}
+			}
+			if proved {
+				ru.Ok(key, p.Rel(ins.Pos()), "bounds test proves index < len")
+				return
+			}
+			if reason, ok := boundsExceptions[key]; ok {
+				ru.Except(key, p.Rel(ins.Pos()), reason)
+				return
+			}
+			ru.Fail(key, p.Rel(ins.Pos()), "index "+ip.String()+" into "+path+" is guarded by a test against "+lenAtom+" that does not prove index < len (off-by-one or inverted bounds test)")
+		})
+	}
+}
